@@ -16,7 +16,9 @@ import (
 var logger = log.With().Str("component", "updater").Logger()
 
 // getLatestVersionFromGitHub checks the latest version on GitHub and returns it.
-func getLatestVersionFromGitHub() (*selfupdate.Release, error) {
+// The updater that detected the release is returned as well: it has to be used to install
+// the release, because only it validates the downloaded asset against the checksum file.
+func getLatestVersionFromGitHub() (*selfupdate.Updater, *selfupdate.Release, error) {
 	source, err := selfupdate.NewGitHubSource(selfupdate.GitHubConfig{})
 	if err != nil {
 		logger.Fatal().Err(err)
@@ -26,21 +28,21 @@ func getLatestVersionFromGitHub() (*selfupdate.Release, error) {
 		Validator: &selfupdate.ChecksumValidator{UniqueFilename: "crs-toolchain-checksums.txt"}, // checksum from goreleaser
 	})
 	if err != nil {
-		return nil, err
+		return nil, nil, err
 	}
 	latest, found, err := updater.DetectLatest(context.Background(), selfupdate.ParseSlug("coreruleset/crs-toolchain"))
 	if err != nil {
-		return latest, fmt.Errorf("error occurred while detecting version: %w", err)
+		return nil, latest, fmt.Errorf("error occurred while detecting version: %w", err)
 	}
 	if !found {
-		return latest, fmt.Errorf("latest version for %s/%s could not be found on GitHub repository", runtime.GOOS, runtime.GOARCH)
+		return nil, latest, fmt.Errorf("latest version for %s/%s could not be found on GitHub repository", runtime.GOOS, runtime.GOARCH)
 	}
-	return latest, nil
+	return updater, latest, nil
 }
 
 // LatestVersion checks the latest version on GitHub and returns it.
 func LatestVersion() (string, error) {
-	latest, err := getLatestVersionFromGitHub()
+	_, latest, err := getLatestVersionFromGitHub()
 	if err != nil {
 		return "", err
 	}
@@ -51,7 +53,7 @@ func LatestVersion() (string, error) {
 // Returns the version string of the updated release, or an error if something went wrong.
 func Updater(version string, executablePath string) (string, error) {
 	emptyVersion := ""
-	latest, err := getLatestVersionFromGitHub()
+	updater, latest, err := getLatestVersionFromGitHub()
 	if err != nil {
 		return emptyVersion, err
 	}
@@ -71,7 +73,8 @@ func Updater(version string, executablePath string) (string, error) {
 		logger.Info().Msgf("Updating file \"%s\"", executablePath)
 	}
 
-	if err := selfupdate.UpdateTo(context.Background(), latest.AssetURL, latest.AssetName, executablePath); err != nil {
+	// Don't use selfupdate.UpdateTo: it downloads the asset without validating its checksum
+	if err := updater.UpdateTo(context.Background(), latest, executablePath); err != nil {
 		return emptyVersion, fmt.Errorf("error occurred while updating binary: %w", err)
 	}
 	logger.Info().Msgf("Successfully updated to version %s", latest.Version())
